@@ -790,10 +790,11 @@ func c10(x *mon.Ctx) {
 			// an endpoint that throttles: failure statuses with every kind of Retry-After value (seconds small and absurd, an HTTP date
 			// an hour or seventy years ahead or long past, garbage). Whatever the getter makes of the advice, the call comes back.
 			if vi < 2 {
+				hung := false
 				for ri, ra := range []string{"1", "0", "86400", "99999999999999999999", "-1", "1.5", "soon", time.Now().Add(time.Hour).UTC().Format(http.TimeFormat), "Wed, 21 Oct 2099 07:28:00 GMT", "Fri, 31 Dec 9999 23:59:59 GMT", "Thu, 01 Jan 1970 00:00:00 GMT", time.Now().Add(time.Hour).UTC().Format(time.RFC850), time.Now().Add(time.Hour).UTC().Format(time.ANSIC)} {
 					for _, code := range []string{"429", "503", "301", "500"} {
-						if (code == "301" || code == "500") && ri != 8 {
-							continue
+						if (code == "301" || code == "500") && ri != 8 || hung {
+							continue // (after a call that did not come back the rest of the class is skipped: each costs minutes)
 						}
 						pcs.Serve(cs.Resp)
 						pcs.Mode = "content-length"
@@ -812,6 +813,7 @@ func c10(x *mon.Ctx) {
 						param := fmt.Sprintf("throttled/%s/retry-after=%s/h2=%v/retrying=%v", code, ra, h2, ri%2 == 1)
 						if p != "" {
 							x.Violation("hostile-response-over-real-http", param, p, "none", nil)
+							hung = hung || strings.Contains(p, "does not return")
 						}
 						x.Note("hostile-response-over-real-http", param, false, p != "", p == "")
 						n++
